@@ -15,6 +15,15 @@ def dres? : Json → Option DRes
   | .str "closed" => some .closed
   | _ => none
 
+/-- `"yield"`: `"always"` | `"ifDrained"` | `"never"` (booleans: `true` = always, `false` = never). -/
+def yield? : Json → Option YieldPolicy
+  | .str "always" => some .always
+  | .str "ifDrained" => some .ifDrained
+  | .str "never" => some .never
+  | .bool true => some .always
+  | .bool false => some .never
+  | _ => none
+
 def nat? (j : Json) : Option Nat := j.getNat?.toOption
 def bool? (j : Json) : Option Bool := j.getBool?.toOption
 
@@ -59,17 +68,30 @@ def phaseName : CPhase → String
 
 def num (n : Nat) : Json := Json.num (JsonNumber.fromNat n)
 
-/-- Replay; also keep the state in which the acceptor took the shutdown command. -/
-def replay (cfg : Cfg) : State → List Event → Nat → Option State → (State × Option Nat × Option State)
-  | s, [], _, snap => (s, none, snap)
-  | s, e :: es, i, snap =>
+/-- What worker `w` holds at the moment it takes its shutdown command. -/
+def workerMet (s : State) (w : Nat) (m : Mode) : Json :=
+  let W := s.w w
+  let cnt (p : CPhase) : Nat := (W.started.filter fun c => (s.c c).phase == p).length
+  Json.mkObj [("worker", num w), ("mode", match m with | .graceful => "graceful" | .forced => "forced"),
+    ("queued", num W.queue.length), ("spawned", num (cnt .spawned)), ("idle", num (cnt .idle)),
+    ("inflight", num (cnt .inflight))]
+
+/-- Replay; also keep the state in which the acceptor took the shutdown command, and what every worker
+    held when it took its own. -/
+def replay (cfg : Cfg) : State → List Event → Nat → Option State → List Json →
+    (State × Option Nat × Option State × List Json)
+  | s, [], _, snap, met => (s, none, snap, met.reverse)
+  | s, e :: es, i, snap, met =>
     match step cfg s e with
     | some s' =>
       let snap' := match e, snap with
         | .accShutdown _, none => some s
         | _, _ => snap
-      replay cfg s' es (i + 1) snap'
-    | none => (s, some i, snap)
+      let met' := match e with
+        | .wShutdown w m => workerMet s w m :: met
+        | _ => met
+      replay cfg s' es (i + 1) snap' met'
+    | none => (s, some i, snap, met.reverse)
 
 def connsJson (s : State) (k : Nat) : Json :=
   .arr ((List.range k).map fun c =>
@@ -81,7 +103,7 @@ def workersJson (s : State) (n : Nat) : Json :=
   .arr ((List.range n).map fun w =>
     let x := s.w w
     Json.mkObj [("dispatched", natListJson x.dispatched), ("started", natListJson x.started),
-      ("queue", natListJson x.queue), ("signalled", x.signalled), ("timedOut", x.timedOut),
+      ("queue", natListJson x.queue), ("drainedAny", x.drainedAny), ("signalled", x.signalled), ("timedOut", x.timedOut),
       ("forced", x.forced), ("notified", x.notified), ("exited", decide (x.phase = .exited))]).toArray
 
 /-- request: {"cfg": {"n":…, "cap":…, "yield":…}, "conns": k, "trace": [event…]}
@@ -89,21 +111,21 @@ def workersJson (s : State) (n : Nat) : Json :=
 def handle (j : Json) : Json :=
   match getVal? j "cfg", getNat? j "conns", (getArr? j "trace") with
   | some c, some k, some tr =>
-    match getNat? c "n", getNat? c "cap", getBool? c "yield" with
+    match getNat? c "n", getNat? c "cap", (getVal? c "yield").bind yield? with
     | some n, some cap, some y =>
-      let cfg : Cfg := { n := n, cap := cap, yieldBeforeSignal := y }
+      let cfg : Cfg := { n := n, cap := cap, yieldPolicy := y }
       let evs := tr.map event?
       match evs.findIdx? Option.isNone with
       | some i => Json.mkObj [("r", "bad-event"), ("at", num i)]
       | none =>
         let es := evs.filterMap id
-        let (s, bad, snap) := replay cfg init es 0 none
+        let (s, bad, snap, met) := replay cfg init es 0 none []
         let snapJson := match snap with
           | some s0 => connsJson s0 k
           | none => Json.null
         Json.mkObj [("r", "ok"), ("conforms", bad.isNone),
           ("bad_at", match bad with | some i => num i | none => Json.null),
-          ("conns", connsJson s k), ("workers", workersJson s n), ("at_shutdown", snapJson),
+          ("conns", connsJson s k), ("workers", workersJson s n), ("at_shutdown", snapJson), ("at_wshutdown", Json.arr met.toArray),
           ("resolved", s.acc.resolved), ("acc_timed_out", s.acc.timedOut),
           ("acc_exited", decide (s.acc.phase = .exited)), ("returned", num s.acc.returned),
           ("handle_done", s.acc.handleDone)]
